@@ -28,13 +28,19 @@ type state struct {
 	val        data.Value         // temp value for expression being computed
 	context    scope              // variable scope
 	autoescape ast.AutoescapeType // escaping mode
+	inExpr     bool               // evaluating an expression of the current node (see at)
 	ij         data.Map           // injected data available to all templates.
 	msgs       soymsg.Bundle      // replacement text for {msg} tags
 }
 
 // at marks the state to be on node n, for error reporting.
 func (s *state) at(node ast.Node) {
-	s.node = node
+	// while an expression is evaluated the command it belongs to stays the
+	// current node: errors are reported at the command (expression nodes of a
+	// quoted attribute carry positions relative to the attribute value).
+	if !s.inExpr {
+		s.node = node
+	}
 }
 
 // errorf formats the error and terminates processing.
@@ -688,9 +694,10 @@ func (s *state) eval2def(n1, n2 ast.Node) (data.Value, data.Value) {
 }
 
 func (s *state) eval(n ast.Node) data.Value {
-	var prev = s.node
+	var prev, wasInExpr = s.node, s.inExpr
+	s.inExpr = true
 	s.walk(n)
-	s.node = prev
+	s.node, s.inExpr = prev, wasInExpr
 	return s.val
 }
 
